@@ -10,6 +10,7 @@
 A disagreement is a harness error (exit 2), never a property violation.  Run: python -m xv.validate_env
 """
 
+import xv
 import itertools
 import json
 import os
@@ -187,7 +188,7 @@ def _abstract(traces):
 
 def check_store(kind):
     p = subprocess.run(["/venv/bin/python", "-c", _RUNNER, kind, json.dumps(SCRIPTS)], capture_output=True, text=True,
-                       cwd="/repo", env={"PATH": os.environ.get("PATH", "")})
+                       cwd=xv.REPO, env={"PATH": os.environ.get("PATH", ""), "PYTHONPATH": xv.REPO})
     if p.returncode != 0:
         return 0, "real store script failed: " + p.stderr[-300:]
     real = _abstract(json.loads(p.stdout))
